@@ -433,7 +433,7 @@ func genCase(r *rand.Rand) (Case, chooser) {
 		p := &pct{prio: r.Perm(k), changes: map[int]bool{}}
 		d := 1 + r.IntN(3)
 		for i := 0; i < d; i++ {
-			p.changes[1+r.IntN(400*k)] = true
+			p.changes[1+r.IntN(1500*k)] = true
 		}
 		return c, p
 	}
@@ -446,7 +446,7 @@ func genCase(r *rand.Rand) (Case, chooser) {
 			gap++
 		}
 		at += gap
-		if at > 8000 {
+		if at > 30000 {
 			break
 		}
 		c.Switches = append(c.Switches, Switch{At: at, To: r.IntN(k)})
